@@ -203,3 +203,49 @@ impl<TC: Tcfg, S: Database + 'static> Sys<TC, S> {
         publish_both::<TC, S>(&self.dir, &mut self.m, batch, step).await
     }
 }
+
+/// uniform read interface over Directory and ReadOnlyDirectory
+#[async_trait::async_trait(?Send)]
+pub trait Reader {
+    async fn r_lookup(&self, l: AkdLabel) -> Result<(LookupProof, EpochHash), akd::errors::AkdError>;
+    async fn r_batch_lookup(&self, l: &[AkdLabel]) -> Result<(Vec<LookupProof>, EpochHash), akd::errors::AkdError>;
+    async fn r_history(&self, l: &AkdLabel, p: HistoryParams) -> Result<(HistoryProof, EpochHash), akd::errors::AkdError>;
+    async fn r_audit(&self, s: u64, e: u64) -> Result<akd::AppendOnlyProof, akd::errors::AkdError>;
+    async fn r_epoch_hash(&self) -> Result<EpochHash, akd::errors::AkdError>;
+}
+#[async_trait::async_trait(?Send)]
+impl<TC: Tcfg, S: Database + 'static> Reader for Dir<TC, S> {
+    async fn r_lookup(&self, l: AkdLabel) -> Result<(LookupProof, EpochHash), akd::errors::AkdError> {
+        self.lookup(l).await
+    }
+    async fn r_batch_lookup(&self, l: &[AkdLabel]) -> Result<(Vec<LookupProof>, EpochHash), akd::errors::AkdError> {
+        self.batch_lookup(l).await
+    }
+    async fn r_history(&self, l: &AkdLabel, p: HistoryParams) -> Result<(HistoryProof, EpochHash), akd::errors::AkdError> {
+        self.key_history(l, p).await
+    }
+    async fn r_audit(&self, s: u64, e: u64) -> Result<akd::AppendOnlyProof, akd::errors::AkdError> {
+        self.audit(s, e).await
+    }
+    async fn r_epoch_hash(&self) -> Result<EpochHash, akd::errors::AkdError> {
+        self.get_epoch_hash().await
+    }
+}
+#[async_trait::async_trait(?Send)]
+impl<TC: Tcfg, S: Database + 'static> Reader for RoDir<TC, S> {
+    async fn r_lookup(&self, l: AkdLabel) -> Result<(LookupProof, EpochHash), akd::errors::AkdError> {
+        self.lookup(l).await
+    }
+    async fn r_batch_lookup(&self, l: &[AkdLabel]) -> Result<(Vec<LookupProof>, EpochHash), akd::errors::AkdError> {
+        self.batch_lookup(l).await
+    }
+    async fn r_history(&self, l: &AkdLabel, p: HistoryParams) -> Result<(HistoryProof, EpochHash), akd::errors::AkdError> {
+        self.key_history(l, p).await
+    }
+    async fn r_audit(&self, s: u64, e: u64) -> Result<akd::AppendOnlyProof, akd::errors::AkdError> {
+        self.audit(s, e).await
+    }
+    async fn r_epoch_hash(&self) -> Result<EpochHash, akd::errors::AkdError> {
+        self.get_epoch_hash().await
+    }
+}
